@@ -23,3 +23,4 @@ def rules(ctx):
     S.savepoint_counter_rules(ctx)
     S.state_writer_rules(ctx)
     S.key_compare_rules(ctx)
+    S.c06_r3_durable_drains(ctx)
